@@ -130,7 +130,15 @@ pub(crate) fn wire_range_deconvolution(
         sol.push(ls_deconvolution(&signal, &WIRE_RESPONSE, 0..=1, 3..=12));
     }
 
-    range_to_indices(range).zip(sol).collect()
+    range_to_indices(range)
+        .zip(sol)
+        .map(|(wire, mut input)| {
+            // Shorter channels were zero-padded up to the longest one in the
+            // block. There is one reconstructed input sample per signal sample.
+            input.truncate(wire_signals[wire].as_ref().unwrap().len());
+            (wire, input)
+        })
+        .collect()
 }
 
 // Given a range [first, last), return an iterator over the indices.
